@@ -40,6 +40,9 @@ type typeRun struct {
 	touched map[string]bool
 	viols   []violation
 	err     string
+	// defaultFailed: the all-default value already violates the oracle; every other value
+	// of the type would fail for the same reason, so the enumeration of the type stops
+	defaultFailed bool
 }
 
 type violation struct {
@@ -128,6 +131,9 @@ func (r *typeRun) describe(choice []int) map[string]string {
 }
 
 func (r *typeRun) eval(choice []int) {
+	if r.defaultFailed {
+		return
+	}
 	r.cases++
 	clause, why, enc := checkOne(r.t, r.fields, choice)
 	if clause == "" {
@@ -140,6 +146,9 @@ func (r *typeRun) eval(choice []int) {
 		if c != 0 {
 			set = append(set, i)
 		}
+	}
+	if len(set) == 0 {
+		r.defaultFailed = true
 	}
 	var culprits []string
 	if len(set) > 1 {
@@ -159,6 +168,9 @@ func (r *typeRun) eval(choice []int) {
 	}
 	if len(set) > 1 && len(culprits) > 0 {
 		return // reported (smaller) by the single-field case of the same value
+	}
+	if len(names) == 0 {
+		names = []string{"default-value"}
 	}
 	sig := fmt.Sprintf("%s:%s:%s", r.key, clause, strings.Join(names, "+"))
 	r.viols = append(r.viols, violation{sig: sig, rank: len(set)*1000 + len(enc),
